@@ -12,6 +12,7 @@
 #include <igris/dprint.h>
 #include <igris/math/defs.h>
 #include <igris/util/types_extension.h>
+#include <limits.h>
 #include <math.h>
 #include <stdarg.h>
 #include <stddef.h>
@@ -436,7 +437,13 @@ int __printf(void (*printchar_handler)(void *d, int c),
             while (isdigit((unsigned char)*format))
                 ++format;
         }
-        width = MAX(width, 0);
+        if (width < 0)
+        {
+            /* a negative '*' width is the '-' flag followed by a positive
+             * width */
+            ops |= OPS_FLAG_LEFT_ALIGN;
+            width = width > -INT_MAX ? -width : INT_MAX;
+        }
 
         /* get precision */
         ops |= *format == '.' ? OPS_PREC_IS_GIVEN : 0;
